@@ -3,6 +3,7 @@ package rules
 import (
 	"go/ast"
 	"go/token"
+	"go/types"
 	"strings"
 
 	"gengoverif/checker/internal/core"
@@ -91,11 +92,11 @@ func c18R1(p *core.Program, r *core.Report) {
 	nerr := 0
 	for _, rp := range g.Points(func(n ast.Node) bool { _, ok := n.(*ast.ReturnStmt); return ok }) {
 		ret := rp.Node().(*ast.ReturnStmt)
-		if len(ret.Results) == 1 && core.AsCall(info, ret.Results[0], "fmt.Errorf") != nil {
+		if len(ret.Results) == 1 && isNewError(info, ret.Results[0]) {
 			nerr++
 		}
 	}
-	r.Check(nerr >= 2, rule, f, "non-struct and non-derived declarations are reported as errors", f.Node().Pos(), "two fmt.Errorf returns", "a declaration that is not a struct / not defined from another named type is not reported as an error")
+	r.Check(nerr >= 2, rule, f, "non-struct and non-derived declarations are reported as errors", f.Node().Pos(), "two returns of a newly made error", "a declaration that is not a struct / not defined from another named type is not reported as an error")
 	// nothing is rendered before the checks
 	early := false
 	for _, c := range core.Calls(f.Body, true) {
@@ -226,4 +227,33 @@ func c18R2(p *core.Program, r *core.Report, sites []templateSite) {
 		}
 	}
 	r.Check(loops >= 1, rule, gen, "fields are emitted in index order over the struct's own NumFields()", gen.Node().Pos(), "counted loop with matching accessor", "no counted loop over the struct's fields")
+}
+
+// isNewError: the expression makes an error value on the spot (fmt.Errorf, errors.New, errors.Join, a literal of
+// an error type) or names a package-level error variable - in any case it is an error and it is not nil.
+func isNewError(info *types.Info, e ast.Expr) bool {
+	e = ast.Unparen(e)
+	if core.AsCall(info, e, "fmt.Errorf", "errors.New", "errors.Join") != nil {
+		return true
+	}
+	t := info.TypeOf(e)
+	if t == nil || !types.Implements(t, types.Universe.Lookup("error").Type().Underlying().(*types.Interface)) {
+		return false
+	}
+	switch x := e.(type) {
+	case *ast.UnaryExpr:
+		_, ok := ast.Unparen(x.X).(*ast.CompositeLit)
+		return ok
+	case *ast.CompositeLit:
+		return true
+	case *ast.Ident:
+		if v, ok := info.ObjectOf(x).(*types.Var); ok && v.Pkg() != nil && v.Parent() == v.Pkg().Scope() {
+			return true
+		}
+	case *ast.SelectorExpr:
+		if v, ok := info.ObjectOf(x.Sel).(*types.Var); ok && !v.IsField() && v.Pkg() != nil && v.Parent() == v.Pkg().Scope() {
+			return true
+		}
+	}
+	return false
 }
